@@ -453,6 +453,11 @@ func SearchQueryToASTnode(node *ast.Node, boolNode *ASTNode, qid uint64, forceCa
 		}
 		boolNode.TimeRange.StartEpochMs = node.TimeModifiers.StartEpoch
 		boolNode.TimeRange.EndEpochMs = node.TimeModifiers.EndEpoch
+		// The time modifiers are all that is left of `* | earliest=-1h`: Simplify() has
+		// dropped the `*`. Without any condition the search matches nothing.
+		if boolNode.AndFilterCondition == nil && boolNode.OrFilterCondition == nil && boolNode.ExclusionFilterCondition == nil {
+			boolNode.AndFilterCondition = createMatchAll(qid).AndFilterCondition
+		}
 	default:
 		log.Errorf("SearchQueryToASTnode: node type %d not supported", node.NodeType)
 		return errors.New("SearchQueryToASTnode: node type not supported")
